@@ -204,6 +204,10 @@ static Verdict run_c12(const Case &c)
   pc.hint_h = (int)c.geti("hint_h", -1);
   if (pc.hint_c >= 0 || pc.hint_h >= 0)
     v.classes.push_back("settings_name_a_mode");
+  if (pc.in_noseek)
+    v.classes.push_back("input_is_a_pipe");
+  if (pc.fsize_hint == 0)
+    v.classes.push_back("size_passed_as_0");
   // "for every file and key" includes files met after other files: half of the cases first run verify or
   // decrypt of the intact base file (right key) in the same process, then the operation under test
   int warm = (int)c.geti("warm", 0);
@@ -340,6 +344,8 @@ static Case gen_c12()
   else
     c.set("keykind", "right");
   c.seti("also_encrypt", g::coin(15) ? 1 : 0);
+  if (g::coin(5))
+    c.seti("pipe_in", 1); // both operations read the file from a stream that cannot seek
   if (g::coin(20))
   {
     if (g::coin(70))
